@@ -437,7 +437,7 @@ impl Sess {
     }
 
     /// Health + a valid canary search must still be answered OK.
-    fn still_serving(&mut self, what: &str) -> Result<Vec<u64>, Failure> {
+    fn still_serving(&mut self, what: &str) -> Result<Vec<(u64, f32)>, Failure> {
         if !self.srv.is_alive() {
             return Err(Failure::new("server_died", format!("{}: the server process is gone; log tail: {}", what, self.srv.log_tail())).with_sig(json!({"kind": "server_stopped_serving"})));
         }
@@ -449,7 +449,7 @@ impl Sess {
         let r = self.call(|mut c, k| async move { c.search(with_key(q, k.as_deref())).await })?;
         match r {
             Err(s) => Err(Failure::new("canary_search_failed", format!("{}: a valid Search afterwards answered {:?} {}", what, s.code(), s.message())).with_sig(json!({"kind": "server_stopped_serving", "rpc": "Search"}))),
-            Ok(resp) => Ok(resp.get_ref().results.iter().map(|x| x.doc_id).collect()),
+            Ok(resp) => Ok(resp.get_ref().results.iter().map(|x| (x.doc_id, x.score)).collect()),
         }
     }
 }
@@ -529,7 +529,7 @@ impl Prop for C15 {
         let mut model: BTreeMap<u64, Stamp> = BTreeMap::new();
         let mut rep = CaseReport::default();
         let mut refused_seen_nonempty = false;
-        let mut prev_canary: Option<Vec<u64>> = None;
+        let mut prev_canary: Option<Vec<(u64, f32)>> = None;
         for (i, op) in case.ops.iter().enumerate() {
             let what = format!("op {} {:?}", i, op);
             let what = if what.len() > 300 { format!("{}…", &what[..300]) } else { what };
@@ -987,7 +987,13 @@ impl Prop for C15 {
             let is_read = matches!(op, Op::Query { .. } | Op::BulkQuery { .. } | Op::Search(_) | Op::BulkSearch(_) | Op::SearchBurst { .. });
             if is_read {
                 if let Some(prev) = &prev_canary {
-                    if *prev != canary {
+                    // equal scores come back in an unspecified order (and a k-cut inside a tie
+                    // group may keep different members): compare the score sequences, and the
+                    // ids only where a score is unique within the answer
+                    let same = prev.len() == canary.len()
+                        && prev.iter().zip(canary.iter()).all(|(a, b)| a.1.to_bits() == b.1.to_bits())
+                        && prev.iter().zip(canary.iter()).all(|(a, b)| a.0 == b.0 || prev.iter().filter(|x| x.1.to_bits() == a.1.to_bits()).count() > 1 || prev.last().map_or(false, |l| l.1.to_bits() == a.1.to_bits()));
+                    if !same {
                         return Err(Failure::new("read_request_changed_later_answers", format!("{}: the canary search answered ids {:?} before this read request and {:?} after it", what, prev, canary)).with_sig(json!({"kind": "read_request_changed_later_answers"})));
                     }
                     rep.count("canary_compared_across_reads", 1);
